@@ -59,6 +59,11 @@ def _verify_one(args):
     t0 = time.time()
     try:
         from contracts import registry
+        # every task starts from the same fresh-name counter: its SMT queries are then the same text
+        # whichever worker runs it and whatever that worker verified before (verdicts of quantified
+        # queries depend on the names through the solver's term order)
+        from pyvc import types as _t
+        _t._fresh_n[0] = 0
         if kind == 'pyvc':
             from pyvc.execcall import Executor
             from pyvc import solve
